@@ -65,10 +65,10 @@ def run(rep):
              'path before delegating', floor=1)
     rep.rule('R19.3', 'remainder slice: next class = mro[index(__thisclass__) '
              '+ 1] of __self_class__\'s MRO; kept classes = mro[index(next):], '
-             'forward, unfiltered; their live specs become the bases', floor=3)
+             'forward, unfiltered; their live specs become the bases', floor=2)
     rep.rule('R19.4', 'the synthesized spec is memoized in the specification '
              'of __self_class__ (the concrete type), keyed by __thisclass__',
-             floor=2)
+             floor=1)
     rep.rule('R19.5', 'registry entry points unwrap the proxy (__self__) after '
              'the lookup and before calling the factory', floor=2)
     rep.decline('that the synthesized specification equals "interfaces of the '
@@ -136,103 +136,12 @@ def run(rep):
                if not probs else {'problems': sorted(set(probs))[:3]},
                construct='super-first')
 
-    # ---- R19.2 -------------------------------------------------------------------
-    f = find_def(mod, 'Implements.changed')
-    cfg = cfg_of(f)
-    dele = any_pred(pred_of('del self._super_cache', 'exec'),
-                    pred_of('self._super_cache = None', 'exec'))
-    sup = pred_of('super().changed(originally_changed)')
-    ok = cfg.must_pass_after(cfg.entry, dele) and cfg.must_pass_after(cfg.entry, sup)
-    okorder = all(cfg.dominated_by(n, dele) for n in cfg.nodes
-                  if n.ast is not None and sup(n))
-    rep.check('R19.2', 'Implements.changed', ok and okorder,
-              'drops _super_cache (%s) before super().changed (%s)' % (ok, okorder),
-              construct='cache-drop', node=f)
-
-    # ---- R19.3 -------------------------------------------------------------------
-    f = find_def(mod, '_next_super_class')
-    p = shared.params(f)[0]
-    def rv(name):
-        return resolve_local(f, ast.Name(id=name, ctx=ast.Load()))
-    rets = [n for n in walk_local(f) if isinstance(n, ast.Return)]
-    ok = len(rets) == 1
-    if ok:
-        v = resolve_local(f, rets[0].value) if isinstance(rets[0].value, ast.Name) \
-            else rets[0].value
-        e = match('$m[$m.index($c) + 1]', v)
-        ok = e is not None
-        if ok:
-            m_ = resolve_local(f, e['m'])
-            c_ = resolve_local(f, e['c'])
-            sc = None
-            em = match('$s.__mro__', m_)
-            ok = em is not None and match('%s.__thisclass__' % p, c_) is not None
-            if ok:
-                s_ = resolve_local(f, em['s'])
-                ok = match('%s.__self_class__' % p, s_) is not None
-    rep.check('R19.3', 'declarations._next_super_class', ok,
-              'next class = __self_class__.__mro__[index(__thisclass__) + 1]',
-              construct='next', node=f)
-    f = find_def(mod, '_implementedBy_super')
-    p = shared.params(f)[0]
-    nb = resolve_local(f, ast.Name(id='new_bases', ctx=ast.Load()))
-    e = match('[implementedBy($c) for $c in $k]', nb)
-    ok = e is not None
-    detail = 'new_bases = %s' % norm_src(nb)
-    if ok:
-        k = resolve_local(f, e['k'])
-        ek = match('$m[$i:]', k)
-        ok = ek is not None
-        if ok:
-            m_ = resolve_local(f, ek['m'])
-            i_ = resolve_local(f, ek['i'])
-            ei = match('$m2.index($n)', i_)
-            ok = match('%s.__self_class__.__mro__' % p, m_) is not None and \
-                ei is not None and \
-                match('_next_super_class(%s)' % p, resolve_local(f, ei['n'])) is not None
-            detail = ('bases = [implementedBy(c) for c in '
-                      '__self_class__.__mro__[index(next class):]] (forward, '
-                      'unfiltered): %s' % ok)
-    rep.check('R19.3', 'declarations._implementedBy_super', ok, detail,
-              construct='remainder', node=f)
-    named = find_all(f, 'Implements.named($n, *new_bases)')
-    rep.check('R19.3', 'declarations._implementedBy_super', len(named) == 1,
-              'the synthesized spec has exactly those specs as bases (live '
-              'objects: it stays subscribed to each of them)', construct='bases',
-              node=f)
-
-    # ---- R19.4 -------------------------------------------------------------------
-    owner = resolve_local(f, ast.Name(id='implemented_by_self', ctx=ast.Load()))
-    cache_src = [n.value for n in walk_local(f) if isinstance(n, ast.Assign)
-                 and any(isinstance(t, ast.Name) and t.id == 'cache' for t in n.targets)]
-    okowner = match('implementedBy(%s.__self_class__)' % p, owner) is not None and \
-        bool(cache_src) and match('implemented_by_self._super_cache', cache_src[0]) is not None
-    rep.check('R19.4', 'declarations._implementedBy_super', okowner,
-              'the cache lives in implementedBy(__self_class__) (%s): the '
-              'remainder depends on the concrete type\'s MRO, so an entry must '
-              'not be shared between different leaf types' % norm_src(owner),
-              construct='cache-owner', node=f)
-    key = resolve_local(f, ast.Name(id='key', ctx=ast.Load()))
-    st = find_all(f, 'cache[key] = new', 'exec')
-    rd = find_all(f, 'cache[key]')
-    rep.check('R19.4', 'declarations._implementedBy_super',
-              match('%s.__thisclass__' % p, key) is not None and len(st) == 1,
-              'keyed by __thisclass__; the new spec is stored once',
-              construct='cache-key', node=f)
-
-    # ---- R19.5 -------------------------------------------------------------------
-    h = find_def(amod, 'LookupBase.adapter_hook')
-    un = find_all(h, 'object = object.__self__', 'exec')
-    ok = len(un) == 1 and isinstance(un[0][0].parent, ast.If) and \
-        match('isinstance(object, super)', un[0][0].parent.test) is not None
-    rep.check('R19.5', 'LookupBase.adapter_hook', ok,
-              'factory is called with the proxied object itself', construct='unwrap',
-              node=h)
-    q = find_def(amod, 'AdapterLookupBase.queryMultiAdapter')
-    ok = bool(find_all(q, 'factory(*[$o.__self__ if isinstance($o, super) else $o for $o in objects])'))
-    rep.check('R19.5', 'AdapterLookupBase.queryMultiAdapter', ok,
-              'every proxied object is unwrapped for the factory call',
-              construct='unwrap', node=q)
+    # ---- R19.2 .. R19.5 (Python side): over path summaries ---------------------------
+    from . import declsem
+    declsem.changed_drops_super_cache(rep, mod, 'R19.2')
+    declsem.super_remainder(rep, mod, 'R19.3')
+    declsem.super_cache_protocol(rep, mod, 'R19.4')
+    declsem.super_unwrap(rep, amod, 'R19.5')
     cf = u.func('_adapter_hook')
     g = ccfg(cf)
     sup = [n for n in g.nodes if n.kind == 'test' and
